@@ -349,6 +349,20 @@ func shape(e string) string {
 }
 
 func huge(e string) bool {
+	// a shift count that is itself an expression over large operands (127 << (3.5e38 >> 'a')) is the same resource hazard
+	for _, op := range []string{"<< (", ">> ("} {
+		if i := strings.Index(e, op); i >= 0 {
+			inner := e[i+4:]
+			if j := strings.IndexByte(inner, ')'); j >= 0 {
+				inner = inner[:j]
+			}
+			for _, tok := range tokRe.FindAllString(inner, -1) {
+				if len(tok) > 3 || strings.ContainsAny(tok, ".e'") {
+					return true
+				}
+			}
+		}
+	}
 	// constant shift counts above 600 are excluded from the alphabet (DESIGN §3 C03 hazard)
 	for _, op := range []string{"<< ", ">> "} {
 		for i := strings.Index(e, op); i >= 0; {
